@@ -420,6 +420,7 @@ func (c *Cluster) runProxyEngine() {
 			synctest.Wait()
 		}
 		c.stats.Ops["proxy-call"]++
+		progress.Add(1)
 		switch r.Intn(5) {
 		case 0, 1: // CommitBlock
 			b := genBlock(r, c)
